@@ -104,6 +104,8 @@ def build_coq(targets=None):
 
 def theorems_of(prop):
     p = os.path.join(COQ, "Properties", prop + ".v")
+    if not os.path.exists(p):
+        return []
     txt = open(p).read()
     return re.findall(r"^Theorem\s+([A-Za-z0-9_']+)", txt, flags=re.M)
 
@@ -113,6 +115,8 @@ def audit(prop, rundir):
     thms = theorems_of(prop)
     vo = os.path.join(COQ, "Properties", prop + ".vo")
     res = {"theorems": thms, "closed": [], "open": [], "axioms": {}}
+    if not thms and not os.path.exists(os.path.join(COQ, "Properties", prop + ".v")):
+        return res
     if not os.path.exists(vo):
         res["open"] = list(thms)
         res["error"] = "Properties/%s.vo was not produced by the build" % prop
@@ -383,6 +387,7 @@ def run_check(plugin, tier, seed, replay=None):
     corr_broken = []
     monitor_fail = []
     evals = 0
+    steps_total = 0
     nontrivial = set()
     samples = []
     results = {}
@@ -424,23 +429,31 @@ def run_check(plugin, tier, seed, replay=None):
                 if v:
                     monitor_fail.append({"codes": [v[0]], "what": v[1], "case": c, "result": r})
                 continue
-            lits.append((c["id"], lit))
+            if isinstance(lit, list):
+                for k, l in enumerate(lit):
+                    lits.append((c["id"] * 1000 + k, l))
+                steps_total += len(lit)
+            else:
+                lits.append((c["id"] * 1000, lit))
+                steps_total += 1
             if plugin.nontrivial(c, r):
                 nontrivial.add(canon_hash({k: v for k, v in c.items() if k != "id"}))
             if len(samples) < 3 and plugin.nontrivial(c, r):
-                samples.append({"case": {k: v for k, v in c.items() if k != "id"}, "observed": r.get("out", r.get("panic"))})
+                samples.append(plugin.sample(c, r) if hasattr(plugin, "sample") else
+                               {"case": {k: v for k, v in c.items() if k != "id"}, "observed": r.get("out", r.get("panic"))})
         codes, errs = eval_cases(prop, plugin.CHECK_MODULE, lits, rundir, imports=getattr(plugin, "IMPORTS", ()))
         for e in errs:
             corr_broken.append({"what": "case evaluation failed", "detail": e})
         byid = {c["id"]: c for c in cases}
         for idx, cs in sorted(codes.items()):
-            c, r = byid[idx], results[idx]
+            c, r = byid[idx // 1000], results[idx // 1000]
+            stepno = idx % 1000
             mons = [x for x in cs if 10 <= x < 100]
             known = [x for x in cs if x >= 100]
             if mons:
-                monitor_fail.append({"codes": mons, "what": "; ".join(plugin.CODES.get(x, "monitor %d" % x) for x in mons), "case": c, "result": r})
+                monitor_fail.append({"codes": mons, "step": stepno, "what": "; ".join(plugin.CODES.get(x, "monitor %d" % x) for x in mons), "case": c, "result": r})
             elif 1 in cs:
-                corr_broken.append({"what": "model does not predict the implementation (step_ok false)", "case": c, "result": r})
+                corr_broken.append({"what": "model does not predict the implementation (step_ok false)", "step": stepno, "case": c, "result": r})
             for x in known:
                 known_lines.append("KNOWN-FINDING: property=%s %s" % (prop, plugin.CODES.get(x, "known finding %d" % x)))
 
@@ -489,7 +502,7 @@ def run_check(plugin, tier, seed, replay=None):
             "trusted_base": TRUSTED_BASE + getattr(plugin, "TRUSTED_EXTRA", []),
             "theorems": aud["theorems"], "theorems_closed": aud["closed"], "theorems_open": aud["open"],
             "open_statements": getattr(plugin, "OPEN_STATEMENTS", []),
-            "evaluations": evals, "distinct_nontrivial": len(nontrivial),
+            "evaluations": evals, "steps_checked": steps_total, "distinct_nontrivial": len(nontrivial),
             "traces_validated_against_impl": evals - len(corr_broken),
             "rule": plugin.RULE, "samples": samples, "input_distribution": stats,
             "exhaustive": bool(getattr(plugin, "EXHAUSTIVE", {}).get(tier, False)),
@@ -534,12 +547,16 @@ def _rerun(plugin, binary, cases, rundir):
             if v:
                 out[c["id"]] = ([v[0]], r)
             continue
-        lits.append((c["id"], lit))
+        if isinstance(lit, list):
+            for k, l in enumerate(lit):
+                lits.append((c["id"] * 1000 + k, l))
+        else:
+            lits.append((c["id"] * 1000, lit))
     codes, errs = eval_cases(plugin.ID, plugin.CHECK_MODULE, lits, rundir, tag="rerun", imports=getattr(plugin, "IMPORTS", ()))
     for idx, cs in codes.items():
         mons = [x for x in cs if 10 <= x < 100]
         if mons:
-            out[idx] = (mons, results[idx])
+            out[idx // 1000] = (mons, results[idx // 1000])
     return out
 
 
